@@ -97,6 +97,21 @@ Definition get_raw_value (d : signal_data) (offset : nat) : outcome (states * li
   | _ => Panic
   end.
 
+(* the loop of slice_bit_vector over the entries (offset, time index) of the parent *)
+Fixpoint slice_go (debug : bool) (d : signal_data) (msb lsb in_bits result_bits : nat) (l : list (nat * N))
+         (b : bv_builder) : outcome bv_builder :=
+  match l with
+  | [] => Ok b
+  | (k, t) :: r =>
+    do b' <- (do '(st, data) <- get_raw_value d k;
+              do buf <- slice_n_states debug st data msb lsb in_bits;
+              let min_states := check_min_state buf st in
+              if states_eqb min_states st then bvb_add_change debug b t st buf
+              else do mb <- compress_template buf st min_states result_bits;
+                   bvb_add_change debug b t min_states mb);
+    slice_go debug d msb lsb in_bits result_bits r b'
+  end.
+
 (* slice_signal / slice_bit_vector, including the reduction to the smallest sufficient kind *)
 Definition slice_signal (debug : bool) (s : signal) (msb lsb : nat) : outcome signal :=
   match s_data s with
@@ -106,18 +121,8 @@ Definition slice_signal (debug : bool) (s : signal) (msb lsb : nat) : outcome si
       do d <- usub msb lsb;
       let result_bits := S d in
       do b0 <- bvb_new max_states result_bits;
-      do b <- (fix go (l : list (nat * N)) (b : bv_builder) : outcome bv_builder :=
-                 match l with
-                 | [] => Ok b
-                 | (k, t) :: r =>
-                   do '(st, data) <- get_raw_value (s_data s) k;
-                   do buf <- slice_n_states debug st data msb lsb in_bits;
-                   let min_states := check_min_state buf st in
-                   do b' <- (if states_eqb min_states st then bvb_add_change debug b t st buf
-                             else do mb <- compress_template buf st min_states result_bits;
-                                  bvb_add_change debug b t min_states mb);
-                   go r b'
-                 end) (combine (seq 0 (length (s_idx s))) (s_idx s)) b0;
+      do b <- slice_go debug (s_data s) msb lsb in_bits result_bits
+                       (combine (seq 0 (length (s_idx s))) (s_idx s)) b0;
       Ok (bvb_finish b)
   | _ => Panic
   end.
